@@ -3,6 +3,7 @@
 //   contract At
 //     #[sv::msg_attr(exec,    serde(deny_unknown_fields))]     -> only ExecMsg rejects unknown keys
 //     #[sv::msg_attr(migrate, serde(deny_unknown_fields))]     -> only MigrateMsg (of the flat kinds)
+//     #[sv::msg_attr(instantiate|migrate|sudo, derive(PartialOrd))] + derive(Eq), two attributes each -> both traits
 //     exec   ren(n)   with #[sv::attr(serde(rename = "zz"))]   -> that variant answers to `zz`, not `ren`
 //     exec   pre(n)   with #[sv::attr(serde(rename = "pz"))] written ABOVE #[sv::msg(exec)] -> answers to `pz`
 //     exec   bth(n)   with #[sv::attr(serde(alias = "b1"))] above and #[sv::attr(serde(alias = "b2"))] below
@@ -47,6 +48,14 @@ pub mod at {
     #[sylvia::contract]
     #[sv::msg_attr(exec, serde(deny_unknown_fields))]
     #[sv::msg_attr(migrate, serde(deny_unknown_fields))]
+    // several attributes forwarded to ONE message kind, derives among them, in both orders: every one
+    // of them must arrive (crate c17 names the derived traits in its compile gate)
+    #[sv::msg_attr(instantiate, derive(PartialOrd))]
+    #[sv::msg_attr(instantiate, derive(Eq))]
+    #[sv::msg_attr(migrate, derive(Eq))]
+    #[sv::msg_attr(migrate, derive(PartialOrd))]
+    #[sv::msg_attr(sudo, derive(Eq))]
+    #[sv::msg_attr(sudo, derive(PartialOrd))]
     impl At {
         pub const fn new() -> Self {
             At
